@@ -36,7 +36,7 @@ DBOX = ((1, 5), (1, 5), (1, 3))
 SP = 50e-9
 TOL = 1e-12
 
-KINDS = ["cont_iso", "cont_diag", "cont_full", "disc2", "disc3", "disc3_disp", "etch", "two_devices"]
+KINDS = ["cont_iso", "cont_diag", "cont_full", "disc2", "disc3", "disc3_disp", "etch", "two_devices", "two_devices_etch_last"]
 
 
 def cases(tier, seed):
@@ -127,6 +127,9 @@ def _scene(case):
     devs = []
     if kind == "two_devices":
         specs = [("devA", "cont_iso", ((1, 3), (1, 5), (1, 3))), ("devB", "disc2", ((3, 5), (1, 5), (1, 3)))]
+    elif kind == "two_devices_etch_last":
+        # an etched device processed after an ordinary one: the etch backup must not disturb what the first device wrote
+        specs = [("devA", "cont_iso", ((1, 3), (1, 5), (1, 3))), ("devB", "etch", ((3, 5), (1, 5), (1, 3)))]
     else:
         specs = [("dev", kind, DBOX)]
     patch = 0
